@@ -41,6 +41,23 @@ class SymStr(str):
     def __reversed__(self):
         return iter([self[i] for i in range(len(self.codes) - 1, -1, -1)])
 
+    def encode(self, encoding="utf-8", errors="strict"):
+        return SymBytes(self.codes)          # ASCII codes: one byte per character
+
+    def __str__(self):
+        return self
+
+    def _unmodelled(name):
+        def f(self, *a, **k):
+            raise core.Inconclusive("str.%s on a string with symbolic characters is not modelled" % name)
+        return f
+    # inherited str methods would silently operate on the placeholder text: refuse instead
+    for _n in ("lower", "replace", "split", "rsplit", "strip", "lstrip", "rstrip", "count", "find", "rfind", "index", "rindex", "startswith", "endswith",
+               "translate", "format", "join", "partition", "casefold", "swapcase", "title", "capitalize", "center", "ljust", "rjust", "zfill", "splitlines",
+               "isalpha", "isupper", "islower", "isdigit", "__add__", "__radd__", "__mul__", "__rmul__", "__mod__", "__contains__", "__lt__", "__le__", "__gt__", "__ge__"):
+        locals()[_n] = _unmodelled(_n)
+    del _n, _unmodelled
+
 
 class SymBytes:
     def __init__(self, codes):
@@ -48,6 +65,12 @@ class SymBytes:
 
     def __len__(self):
         return len(self.codes)
+
+    def __iter__(self):
+        return iter(self.codes)
+
+    def __getitem__(self, k):
+        return SymBytes(self.codes[k]) if isinstance(k, slice) else self.codes[k]
 
 
 def _bytearray(*a):
